@@ -210,6 +210,17 @@ def _create_default_registry() -> OperatorRegistry:
     # Arithmetic functions
     ops.register(tokens.PLUS, "+{0}", is_prefix=True)
     ops.register(tokens.MINUS, "-{0}", is_prefix=True)
+    # "-" applied to an operand that itself starts with "-" must not render as "--",
+    # which DuckDB reads as the start of a line comment.
+    ops.register_custom(
+        tokens.MINUS,
+        SQLOperator(
+            sql_template="-{0}",
+            is_prefix=True,
+            custom_generator=lambda a: f"-({a})" if a.lstrip().startswith("-") else f"-{a}",
+        ),
+        arity=1,
+    )
     ops.register(tokens.CEIL, "CEIL({0})")
     ops.register(tokens.FLOOR, "FLOOR({0})")
     ops.register(tokens.ABS, "ABS({0})")
